@@ -1,6 +1,7 @@
 """Whole-run correspondence: the model of Solver::solve (coq/Cdcl/Solver.v, activity in binary32: coq/Float/SolverRun.v)
-computes, from the provider data and the problem alone, the result, the complete sequence of trail events, the clause
-database and the provider calls of a synchronous solve; the implementation's must equal them."""
+computes, from the provider data and the problem alone (plus, for runtimes other than the synchronous one, the order in
+which the encoder's futures completed), the result, the complete sequence of trail events, the clause database and (for
+synchronous runs) the provider calls; the implementation's must equal them."""
 import vlib
 from props import solverstream as ss, antie, enctie
 
@@ -9,7 +10,7 @@ OUTCOME = {0: "sat", 1: "unsat", 2: "panic", 3: "fuel"}
 
 def applicable(r):
     d = r["obs"].get("dump")
-    return (d is not None and enctie.is_sync(r) and "/act=" not in r.get("stream", "")
+    return (d is not None and "/act=" not in r.get("stream", "")
             and ss.outcome_kind(r["obs"]["outcome"]) in ("sat", "unsat"))
 
 
@@ -27,8 +28,16 @@ def annotate(recs, fuel=20000, efuel=20000):
         db = [len(d["clauses"])]
         for c in d["clauses"]:
             db += vlib.tok_clause(c)
+        if enctie.is_sync(r):
+            order = [0]          # synchronous runtime: the model completes the futures first-in first-out
+        else:
+            # any other runtime: the completion order of the encoder's futures is an input of the model
+            done = [enctie.tok_task(e["done"]) for e in d["events"] if isinstance(e, dict) and "done" in e]
+            order = [1, len(done)]
+            for t in done:
+                order += t
         lines.append(f"solver {i} " + vlib.toks(vlib.tok_universe(r["case"]["u"]), vlib.tok_problem(r["case"]["p"]), [fuel, efuel],
-                                                 [kind], [len(res)] + res, antie.tok_levents(d["events"]), db,
+                                                 order, [kind], [len(res)] + res, antie.tok_levents(d["events"]), db,
                                                  enctie.tok_calls(r["obs"]["calls"])))
     out = vlib.oracle(lines)
     for i, v in out.items():
@@ -38,7 +47,7 @@ def annotate(recs, fuel=20000, efuel=20000):
             continue
         t = v.split()
         r["solver"] = {"model": OUTCOME.get(int(t[0]), t[0]), "outcome": t[1] == "1", "log": t[2] == "1", "db": t[3] == "1",
-                       "calls": t[4] == "1", "prefix": int(t[5]), "events": sum(1 for e in r["obs"]["dump"]["events"]
+                       "calls": t[4] == "1" or not enctie.is_sync(r), "sync": enctie.is_sync(r), "prefix": int(t[5]), "events": sum(1 for e in r["obs"]["dump"]["events"]
                                                                                  if e == "ul" or (isinstance(e, dict) and ("a" in e or "uu" in e or "sreg" in e)))}
     return recs
 
@@ -50,4 +59,5 @@ def ok(r):
 
 def stats(recs):
     s = [r["solver"] for r in recs if "solver" in r and "model" in r["solver"]]
-    return {"whole_runs_compared_with_solver_model": len(s), "trail_events_compared": sum(x["events"] for x in s)}
+    return {"whole_runs_compared_with_solver_model": len(s), "of_which_under_a_logged_completion_order": sum(1 for x in s if not x["sync"]),
+            "trail_events_compared": sum(x["events"] for x in s)}
